@@ -1155,6 +1155,9 @@ func (run *Run) startClientOp(c int, si *StepInfo) {
 	if op.Kind == "save" && !run.sc.Cfg.NoOracle {
 		run.mon.onSaveOpStart(c)
 	}
+	if op.Kind == "list" && op.HTTP && !run.sc.Cfg.NoOracle {
+		run.mon.onListOpStart(c)
+	}
 	go func() {
 		raceOff()
 		run.hello <- helloMsg{c, goid()}
